@@ -241,34 +241,35 @@ impl Backend {
     }
 
     /// Find the range(s) where a parameter name appears in a function signature.
+    ///
+    /// The parameters of a fixture are recorded as usages with their exact columns, so the
+    /// ranges are taken from the index instead of searching the line text (a text search finds
+    /// `db` inside `def my_db(db):`).
     fn find_parameter_ranges(
         &self,
         file_path: &std::path::Path,
         line: usize,
         param_name: &str,
     ) -> Option<Vec<Range>> {
-        let content = self.fixture_db.file_cache.get(file_path)?;
-        let lines: Vec<&str> = content.lines().collect();
+        let usages = self.fixture_db.usages.get(file_path)?;
+        let lsp_line = Self::internal_line_to_lsp(line);
 
-        // Get the line (0-indexed internally, but definition.line is 1-indexed)
-        let line_content = lines.get(line.saturating_sub(1))?;
-
-        // Find the parameter in the line
-        if let Some(start) = line_content.find(param_name) {
-            let lsp_line = Self::internal_line_to_lsp(line);
-            let range = Range {
-                start: Position {
-                    line: lsp_line,
-                    character: start as u32,
-                },
-                end: Position {
-                    line: lsp_line,
-                    character: (start + param_name.len()) as u32,
-                },
-            };
-            return Some(vec![range]);
+        let mut ranges = Vec::new();
+        for usage in usages.iter() {
+            if usage.line == line && usage.name == param_name {
+                ranges.push(Self::create_range(
+                    lsp_line,
+                    usage.start_char as u32,
+                    lsp_line,
+                    usage.end_char as u32,
+                ));
+            }
         }
 
-        None
+        if ranges.is_empty() {
+            None
+        } else {
+            Some(ranges)
+        }
     }
 }
